@@ -153,6 +153,182 @@ def run_task(task):
     return out
 
 
+def _build(bct, name, kind, bseed, over=None, flags=None):
+    f = getattr(bct, name)
+    kw = ei.build(name, f, kind, np.random.RandomState(bseed), flags or None)
+    if kw is not None and over:
+        kw = dict(kw)
+        kw.update(over)
+    return f, kw
+
+
+def _desc(name, kind, bseed, over, flags, seed):
+    extra = ''.join(', %s=%r' % kv for kv in sorted({**(flags or {}), **(over or {})}.items()))
+    return '%s(<%s arguments, builder seed %d>%s, seed=%r)' % (name, kind, bseed, extra, seed)
+
+
+def run_history(task):
+    """HISTORY ACROSS CALLS.  Executed as the only task of a freshly forked process (nothing of bct has run in it):
+    call X first, then other calls of the same routine with other parameter values / flags / matrices and calls of sibling
+    routines, then X again: same arguments and seed must give the same result whatever ran in between."""
+    bct = import_bct()
+    out = {'task': task, 'fails': [], 'status': 'ok', 'calls': 0, 'local_draws': -1, 'history': True}
+    f, kw = _build(bct, task['function'], task['kind'], task['bseed'], task.get('over'), task.get('flags'))
+    if kw is None:
+        out['status'] = 'nobuild'
+        return out
+    s = task['seed']
+    seq = [_desc(task['function'], task['kind'], task['bseed'], task.get('over'), task.get('flags'), s)]
+    r_first = _call(f, kw, s, retry=3)
+    out['calls'] += 1
+    out['status'] = r_first[0] if r_first[0] != 'exc' else 'exc:' + exc_kind(r_first[1])
+    if r_first[0] == 'timeout':
+        return out
+    for o in task['others']:
+        g, gkw = _build(bct, o['function'], o['kind'], o['bseed'], o.get('over'), o.get('flags'))
+        if gkw is None:
+            continue
+        _call(g, gkw, o['seed'], retry=0)
+        out['calls'] += 1
+        seq.append(_desc(o['function'], o['kind'], o['bseed'], o.get('over'), o.get('flags'), o['seed']))
+        if o.get('check'):          # re-check X after every step so that the replay names the shortest prefix
+            r_mid = _call(f, kw, s)
+            out['calls'] += 1
+            if not _res_equal(r_first, r_mid):
+                out['fails'].append(('result-depends-on-history', 'the first call in a fresh process and the same call after %d other call(s) differ (%s vs %s); '
+                                     'sequence: %s ; %s' % (len(seq) - 1, r_first[0], r_mid[0], ' ; '.join(seq), seq[0])))
+                return out
+    r_again = _call(f, kw, s)
+    out['calls'] += 1
+    if not _res_equal(r_first, r_again):
+        out['fails'].append(('result-depends-on-history', 'the first call in a fresh process and the same call after %d other calls differ (%s vs %s); '
+                             'sequence: %s ; %s' % (len(seq) - 1, r_first[0], r_again[0], ' ; '.join(seq), seq[0])))
+    return out
+
+
+def _mutate_first_matrix(args):
+    """in place, staying in the domain: re-weight one existing off-diagonal edge symmetrically (2-D float/int arrays),
+    or swap two entries of a vector"""
+    for a in args:
+        if isinstance(a, np.ndarray) and a.ndim == 2 and a.shape[0] == a.shape[1] and a.shape[0] > 2 and a.dtype.kind in 'fiu':
+            idx = np.argwhere((a != 0) & ~np.eye(a.shape[0], dtype=bool))
+            if len(idx):
+                i, j = idx[len(idx) // 2]
+                v = a[i, j]
+                a[i, j] = 0
+                if a[j, i] == v:
+                    a[j, i] = 0          # lesion the edge in both directions of a symmetric matrix
+                return
+        if isinstance(a, np.ndarray) and a.ndim == 1 and len(a) > 2:
+            a[[0, -1]] = a[[-1, 0]]
+            return
+
+
+def run_reuse(task):
+    """OBJECT REUSE (common.reuse_probe): f(A, seed=s); edit A in place; f on the SAME objects vs f on fresh copies"""
+    bct = import_bct()
+    out = {'task': task, 'fails': [], 'status': 'ok', 'calls': 3, 'local_draws': -1, 'reuse': True}
+    f, kw = _build(bct, task['function'], task['kind'], task['bseed'])
+    if kw is None:
+        out['status'] = 'nobuild'
+        return out
+    names = [k for k, v in kw.items() if isinstance(v, np.ndarray)]
+    if not names:
+        out['status'] = 'noarrays'
+        return out
+    scal = {k: v for k, v in kw.items() if k not in names}
+    partner = task.get('partner')
+
+    def fn(*arrs, seed=None):
+        a = dict(zip(names, arrs))
+        if partner:                     # a sibling routine sees the same argument objects first
+            g = getattr(bct, partner)
+            ps = [p for p in __import__('inspect').signature(g).parameters]
+            if ps and names:
+                try:
+                    g(**{ps[0]: arrs[0]}, **({'itr': 1} if 'itr' in ps else {}), **({'seed': seed} if 'seed' in ps else {}))
+                except Exception:  # noqa
+                    pass
+        return f(**a, **scal, seed=seed)
+    fn.__name__ = task['function']
+    d = reuse_probe(fn, [kw[k] for k in names], _mutate_first_matrix, t=T_CALL, seed=task['seed'])
+    if d is not None:
+        out['fails'].append(('result-depends-on-history', {'probe': d, 'sequence': '%s ; <edit %s in place> ; same call on the same objects vs on fresh copies'
+                                                            % (_desc(task['function'], task['kind'], task['bseed'], None, None, task['seed']), names[0]),
+                                                           'partner_called_first_on_same_object': partner}))
+    return out
+
+
+def dispatch(task):
+    if task.get('mode') == 'reuse':
+        return run_reuse(task)
+    return run_task(task)
+
+
+def _variants(kw, rs, cap):
+    """other parameter values for the same routine: every int / float scalar moved up and down"""
+    out = []
+    for p, v in kw.items():
+        if isinstance(v, bool) or p == 'seed':
+            continue
+        if isinstance(v, (int, np.integer)):
+            out += [{p: int(v) + 1}, {p: int(v) + 2}, {p: max(1, int(v) - 1)}, {p: 2 * int(v)}]
+        elif isinstance(v, float):
+            out += [{p: v * 2}, {p: v / 2}]
+    out = [o for i, o in enumerate(out) if o not in out[:i] and any(kw[k] != x for k, x in o.items())]
+    if len(out) > cap:
+        out = [out[int(i)] for i in sorted(rs.permutation(len(out))[:cap])]
+    return out
+
+
+def history_tasks(ck, bct, pub, seedful):
+    import inspect
+    tasks = []
+    per_fn = 1 if ck.tier == 'quick' else 6
+    for name in seedful:
+        fam = [g for g in seedful if g != name and pub[g].__module__ == pub[name].__module__]
+        close = [g for g in fam if g[:4] == name[:4]]
+        for _ in range(per_fn):
+            kind = ('und', 'bin', 'dir')[int(ck.rs.randint(3))]
+            bseed = int(ck.rs.randint(2 ** 31))
+            kw = ei.build(name, pub[name], kind, np.random.RandomState(bseed))
+            if kw is None:
+                continue
+            sd = int(ck.rs.randint(2 ** 31))
+            others = []
+            for ov in _variants(kw, ck.rs, 8):                     # same routine, other parameter values
+                others.append({'function': name, 'kind': kind, 'bseed': bseed, 'over': ov, 'seed': sd, 'check': True})
+            for fl in ei.flag_combos(pub[name], ck.rs, cap=4)[1:]:   # same routine, non-default flags
+                others.append({'function': name, 'kind': kind, 'bseed': bseed, 'flags': fl, 'seed': sd, 'check': True})
+            others.append({'function': name, 'kind': kind, 'bseed': int(ck.rs.randint(2 ** 31)), 'seed': sd})   # other matrix, same size
+            sibs = close + [fam[int(i)] for i in ck.rs.permutation(len(fam))[:3] if fam[int(i)] not in close] if fam else []
+            for g in sibs[:8]:
+                gk = ei.build(g, pub[g], kind, np.random.RandomState(bseed))
+                if gk is None:
+                    continue
+                others.append({'function': g, 'kind': kind, 'bseed': bseed, 'seed': sd, 'check': True})
+                for ov in _variants(gk, ck.rs, 3):
+                    others.append({'function': g, 'kind': kind, 'bseed': bseed, 'over': ov, 'seed': sd, 'check': True})
+            if ck.tier == 'quick' and len(others) > 14:      # budget: keep the same-routine variants first, sample the rest
+                keep = [o for o in others if o['function'] == name][:9]
+                rest = [o for o in others if o not in keep]
+                others = keep + [rest[int(i)] for i in ck.rs.permutation(len(rest))[:14 - len(keep)]]
+            order = [int(i) for i in ck.rs.permutation(len(others))]
+            tasks.append({'mode': 'history', 'function': name, 'kind': kind, 'bseed': bseed, 'seed': sd, 'others': [others[i] for i in order]})
+    return tasks
+
+
+def fresh_process_map(func, items, procs=None):
+    """every item is the only task of a newly forked process (maxtasksperchild=1), forked from this process in which no bct
+    routine has run: 'first call in a fresh worker'"""
+    import multiprocessing as mp
+    if not items:
+        return []
+    ctx = mp.get_context('fork')
+    with ctx.Pool(procs or min(16, os.cpu_count() or 4), maxtasksperchild=1) as pool:
+        return pool.map(func, items, chunksize=1)
+
+
 def has_draw(res):
     """function name -> does its skeleton (transitively) contain a draw"""
     rng = res['rng']
@@ -281,10 +457,34 @@ def main():
     if seedful != static_seedful:
         ck.corr_break('translator namespace resolution', {'only_dynamic': sorted(set(seedful) - set(static_seedful)),
                                                           'only_static': sorted(set(static_seedful) - set(seedful))})
+    hist, reuse = [], []
+    if ck.replay:
+        tasks = [json.load(open(ck.replay))['case']['task']]
+        if isinstance(tasks[0], dict) and tasks[0].get('mode') == 'history':
+            hist, tasks = tasks, []
+    else:
+        hist = history_tasks(ck, bct, pub, seedful)
+        for name in seedful:
+            for kind in (('und', 'dir') if ck.tier == 'quick' else ('und', 'bin', 'dir', 'wdiag', 'signed')):
+                for rep in range(1 if ck.tier == 'quick' else 3):
+                    sibs = [g for g in seedful if g != name and g[:4] == name[:4]]
+                    reuse.append({'mode': 'reuse', 'function': name, 'kind': kind, 'bseed': int(ck.rs.randint(2 ** 31)),
+                                  'seed': int(ck.rs.randint(2 ** 31)),
+                                  'partner': sibs[int(ck.rs.randint(len(sibs)))] if sibs and rep % 2 == 0 and kind == 'und' else None})
+    # history tasks first: their processes are forked from this one before any bct routine has run here
+    hist_results = fresh_process_map(run_history, hist)
+    # shrink a failing sequence: try every single other call on its own (X ; Y ; X in a fresh process each)
+    for i, r in enumerate(list(hist_results)):
+        if r['fails'] and len(r['task']['others']) > 1:
+            singles = [dict(r['task'], others=[dict(o, check=True)]) for o in r['task']['others']]
+            for r1 in fresh_process_map(run_history, singles):
+                if r1['fails']:
+                    hist_results[i] = r1
+                    break
     get_rng_correspondence(ck, bct)
 
     if ck.replay:
-        tasks = [json.load(open(ck.replay))['case']['task']]
+        pass
     else:
         kinds = ('und', 'bin', 'dir') if ck.tier == 'quick' else ('und', 'bin', 'dir', 'wdiag', 'signed')
         nseeds = 3 if ck.tier == 'quick' else 16
@@ -304,7 +504,10 @@ def main():
             par.append({'function': 'nbs_parallel.nbs_bct', 'kind': 'und', 'bseed': int(ck.rs.randint(2 ** 31)), 'seed': int(ck.rs.randint(2 ** 31)),
                         'prior': [int(ck.rs.randint(2 ** 31)), int(ck.rs.randint(0, 50)), int(ck.rs.randint(2 ** 31)), int(ck.rs.randint(0, 50))],
                         'useed': int(ck.rs.randint(2 ** 31))})
-    results = pmap(run_task, tasks) + [run_task(t) for t in par]
+    tasks = tasks + reuse
+    if not ck.replay:       # never group by routine: every worker interleaves routines, flavours and modes
+        tasks = [tasks[int(i)] for i in ck.rs.permutation(len(tasks))]
+    results = pmap(dispatch, tasks) + [run_task(t) for t in par] + hist_results
     hd = has_draw(res)
     seen_draw, ran = {}, {}
     for r in results:
@@ -312,6 +515,10 @@ def main():
         fn = t['function']
         ck.count('status:' + r['status'].split(':')[0])
         ck.count('real_calls', r['calls'])
+        if r.get('history'):
+            ck.count('history_sequences (fresh process; X, other calls, X)')
+        if r.get('reuse'):
+            ck.count('reuse_probes')
         if r['status'] in ('timeout', 'nobuild'):
             ck.count(r['status'] + ':' + fn)
         ran.setdefault(fn, 0)
